@@ -878,3 +878,52 @@ pub fn c04_buffer_pending_codec_full() {
     std::mem::forget(counts);
     std::mem::forget(prio);
 }
+
+/// pop_frame, *blocked* regime: the stream was scheduled but holds no capacity (window
+/// exhausted since it was scheduled) and two DATA frames are queued.  Nothing may be
+/// emitted, and the frames must stay in submission order (the popped head goes back to
+/// the FRONT): otherwise later frames - or END_STREAM - overtake unsent bytes (C01).
+pub fn c01_pop_frame_blocked_keeps_order() {
+    let mut w = world(4); // half-closed local: END_STREAM already queued
+    let sz1: usize = kani::any();
+    let sz2: usize = kani::any();
+    kani::assume(sz1 >= 1 && sz1 as u64 <= MAXW as u64 && sz2 as u64 <= MAXW as u64);
+    {
+        let mut p = w.store.resolve(w.key);
+        let f1 = frame::Data::new(StreamId::from(ID), SymBuf { off: 0, rem: sz1 });
+        p.pending_send.push_back(&mut w.buffer, f1.into());
+        let mut f2 = frame::Data::new(StreamId::from(ID), SymBuf { off: sz1, rem: sz2 });
+        f2.set_end_stream(true);
+        p.pending_send.push_back(&mut w.buffer, f2.into());
+        p.is_pending_send = true;
+        store_h::queue_set_single(&mut w.prio.pending_send, w.key);
+    }
+    let pre = sym_pre(&mut w, Some(sz1 + sz2));
+    kani::assume(pre.a == 0);
+    let max_len: usize = kani::any();
+    kani::assume(max_len >= 16_384 && max_len < (1 << 24));
+    let out = w.prio.pop_frame(&mut w.buffer, &mut w.store, max_len, &mut w.counts);
+    assert!(out.is_none(), "DATA emitted without any assigned capacity");
+    let q = post(&mut w);
+    assert!(q.w == pre.w && q.cw == pre.cw && q.a == 0 && q.buffered == pre.buffered);
+    let mut p = w.store.resolve(w.key);
+    match p.pending_send.pop_front(&mut w.buffer) {
+        Some(Frame::Data(d)) => {
+            assert!(d.payload().off == 0 && d.payload().rem == sz1 && !d.is_end_stream(),
+                "C01.order: a blocked DATA frame lost its place at the head of the stream's queue (later bytes / END_STREAM would overtake it)");
+            std::mem::forget(d);
+        }
+        _ => panic!("blocked DATA frame lost"),
+    }
+    match p.pending_send.pop_front(&mut w.buffer) {
+        Some(Frame::Data(d)) => {
+            assert!(d.payload().off == sz1 && d.payload().rem == sz2 && d.is_end_stream(), "second frame changed");
+            std::mem::forget(d);
+        }
+        _ => panic!("second frame lost"),
+    }
+    assert!(p.pending_send.is_empty());
+    kani::cover!(true, "end");
+    std::mem::forget(out);
+    forget(w);
+}
